@@ -230,3 +230,55 @@ Lemma faulted_remove_leaves_record_until_expiry :
   = [QR (RReg (stamp ex_rec 0 30000000000)); QR RUnit; QR (ROk (stamp ex_rec 0 30000000000)); QR RUnit;
      QR (ROk (stamp ex_rec 0 30000000000)); QR RUnit; QR RExpired].
 Proof. vm_compute. reflexivity. Qed.
+
+(* ---- (C) polling *)
+Lemma poll_interval_capped : forall init factor cap k, init <= cap -> poll_interval init factor cap k <= cap.
+Proof. intros init factor cap k H. destruct k as [|k]; cbn [poll_interval]; [exact H|apply N.le_min_r]. Qed.
+
+Section PollProofs.
+  Variable gstr : Type.
+  Variable enc : waiting -> gstr.
+  Variable dec : gstr -> option waiting.
+  Variable decm : gstr -> option waiting.
+  Variable of_addr : str -> gstr.
+  Variable to_addr : gstr -> str.
+  Variable keep : cell -> N -> bool.
+
+  Notation step := (step gstr enc dec decm of_addr to_addr keep).
+  Notation final := (final gstr enc dec decm of_addr to_addr keep).
+  Notation lookup := (lookup gstr enc dec decm of_addr to_addr keep).
+  Notation poll_run := (poll_run gstr enc dec decm of_addr to_addr keep).
+  Notation now := (now gstr).
+  Notation bnow := (bnow gstr).
+
+  (* the target arrived first: it polls through [pre] rounds (anything may happen in them); during the next round the source
+     registers r (h1 ++ Register :: h2, nobody sets the id in h2, still inside the waiting period at the end of the round).
+     Then the polling resolves at the latest at the FIRST poll after the publication, and what it returns there is exactly r *)
+  Theorem poll_resolves_at_first_poll_after_publication : forall c n1 r h1 h2 n2 pre post s i,
+    keys_disjoint c -> c_route c (wait_key c (w_tunnel r)) = true -> c_ttl c <> 0 -> w_tunnel r <> [] ->
+    let s0 := fold_left (fun st h => final c st h) pre s in
+    let s1 := final c s0 h1 in
+    let r' := stamp r (now s1) (now s1 + c_ttl c) in
+    dec (enc r') = Some r' ->
+    Forall (fun o => ~ sets_tunnel (w_tunnel r) o) h2 ->
+    let s2 := final c (fst (step c s1 (ORegister n1 r))) h2 in
+    now s2 <= now s1 + c_ttl c -> bnow s2 <= bnow s1 + c_ttl c ->
+    exists j x, poll_run c s n2 (w_tunnel r) (pre ++ (h1 ++ ORegister n1 r :: h2) :: post) i = Some (j, x)
+                /\ (j <= i + length pre + 1)%nat /\ (j = (i + length pre + 1)%nat -> x = r').
+  Proof.
+    intros c n1 r h1 h2 n2 pre. induction pre as [|h pre IH]; intros post s i Hd Hr Httl Ht s0 s1 r' Hc Hf s2 Hn Hb.
+    - cbn [app RoutingForward.poll_run fold_left] in *.
+      destruct (lookup c s n2 (w_tunnel r)) as [ | | |x| | | | | | | ] eqn:E;
+        try (exists i, x; split; [reflexivity|split; [cbn; lia|intro K; cbn in K; lia]]).
+      all: assert (L : lookup c (final c s (h1 ++ ORegister n1 r :: h2)) n2 (w_tunnel r) = ROk r')
+             by (rewrite final_app, final_cons;
+                 exact (routable_from_any_node gstr enc dec decm of_addr to_addr keep c s1 n1 r h2 n2 Hd Hr Httl Ht Hc Hf Hn Hb)).
+      all: destruct post as [|p post]; cbn [RoutingForward.poll_run]; rewrite L;
+           exists (S i), r'; (split; [reflexivity|split; [cbn; lia|intros _; reflexivity]]).
+    - cbn [app RoutingForward.poll_run].
+      destruct (lookup c s n2 (w_tunnel r)) as [ | | |x| | | | | | | ] eqn:E;
+        try (exists i, x; split; [reflexivity|split; [cbn [length]; lia|intro K; cbn [length] in K; lia]]).
+      all: destruct (IH post (final c s h) (S i) Hd Hr Httl Ht Hc Hf Hn Hb) as [j [x [A [B C]]]];
+           exists j, x; (split; [exact A|split; [cbn [length]; lia|intro K; apply C; cbn [length] in K; lia]]).
+  Qed.
+End PollProofs.
